@@ -149,8 +149,10 @@ def run(tier, seed):
         'simulated mpi4py (harness/simmpi): every rank is a thread that runs only while it holds the baton; matching / completion of '
         'non-blocking operations is a scheduler decision (policies eager / lazy / random, seeded); synchronous-mode completion for all '
         'sends (worst case); it stands in for a real MPI library and is itself checked against SimMPI.tla through its event log',
-        'time-parallel controller and the MPI flavours of CheckConvergence, BasicRestarting, SpreadStepSizesBlockwise; the node-parallel '
-        'sweepers and BaseTransferMPI are not covered by this check; the interrupt-based iteration estimator is excluded by the property',
+        'time-parallel controller and the MPI flavours of CheckConvergence, BasicRestarting, SpreadStepSizesBlockwise; node-parallel sweepers '
+        'and base_transfer_MPI with one simulated rank per collocation node (same number of nodes on all levels, as the classes require); '
+        'the interrupt-based iteration estimator is excluded by the property',
+        'collectives: a non-root of a rooted reduction and the root of a broadcast may return before the other ranks arrive (scheduler decision)',
         'PfasstMPI.tla models one block, single level, Jacobi coupling']
     rep.rule = ('cases = (configuration, schedule seed, matching policy) runs of the real controller_MPI; non-trivial = more than one rank '
                 'and at least one message matched; distinct by event log')
@@ -228,6 +230,8 @@ def run(tier, seed):
                 o = runs[len(runs) // 2]
                 rep.samples.append(dict(cfg=o['cfg'], policy=o['policy'], sched_seed=o['sched_seed'], first_events=o['mpi']['events'][:10],
                                         steps=o['mpi']['steps'][:4]))
+            from checks import c08_nodepar
+            c08_nodepar.run_part(rep, pool, scratch, tier, rng)
             for lab, fut in mc_async:
                 r = fut.get()
                 rep.add_tlc(r, 'MC PfasstMPI ' + lab)
@@ -282,6 +286,14 @@ def riar_clobber(cfg, ser, m):
 
 def replay(path):
     d = json.load(open(path))
+    if d.get('kind') in ('nodepar-op', 'nodepar-run'):
+        from checks import c08_nodepar
+        if d['kind'] == 'nodepar-op':
+            o = c08_nodepar._op_job((1, d['mode'], d['inst'], d['P'], d['sched_seed'], d['policy']))
+        else:
+            o = c08_nodepar._run_job((1, d['flavour'], d['cfg'], d['sched_seed'], d['policy']))
+        print(json.dumps(dict(diffs=o.get('diffs'), error=o.get('error'), events=len(o.get('ev') or [])), indent=1)[:3000])
+        return 1 if (o.get('diffs') or o.get('error')) else 0
     if d.get('kind') in ('mpi-vs-serial', 'mpi-trace'):
         from harness import mpi_runs
         ser = mpi_runs.run_serial(d['cfg'])
